@@ -401,7 +401,10 @@ package core
 //@   loop 1 invariant shape: soff(fieldValues) == 0 && len(fieldValues) >= 0 && sref(fieldValues) >= 0 && sref(fieldValues) < alloc && len(fieldValues) <= rd(src)
 //@   loop 1 invariant numeric: forall j :: 0 <= j && j < len(fieldValues) ==> (exists k :: 0 <= k && k < rd(src) &&
 //@       castable(pathLookup(src[k], hagg.Field)) && same(fieldValues[j], castnum(pathLookup(src[k], hagg.Field))))
-//@   loop 2 invariant open: !closed(out) && len(fieldValues) >= 1
+//@   loop 2 invariant open: !closed(out) && len(fieldValues) >= 1 && wr(out) >= 0
+// alignment and coverage of the minimum: the first bucket emitted starts at the largest
+// multiple of the interval that is not above the smallest value, floor(min/i)*i
+//@   loop 2 invariant first: wr(out) == 0 ==> same(bucket, ffloor(min / i) * i)
 //@   loop 3 invariant bound: rangeindex < len(fieldValues) && !closed(out) && len(fieldValues) >= 1
 //@   loop 3 axiom h0: forall lo:F64, hi:F64 :: same(hcntF(sref(fieldValues), 0, lo, hi), fzero)
 //@   loop 3 axiom hT: forall n, lo:F64, hi:F64 :: 0 <= n && (fieldValues[n] >= lo && fieldValues[n] < hi) ==>
